@@ -169,7 +169,8 @@ package contractcourt
 //@            (retn(NewBreachRetribution, 1) == nil && retn(NewBreachRetribution, 0).BreachTxHash != ret(TxHash)))
 //@   ensures result1 == nil && result0 ==> called(dispatchContractBreach) && ret(dispatchContractBreach) == nil
 //@   site call dispatchContractBreach: assert arg(1) == commitSpend && arg(2) == chainSet && arg(3) == broadcastStateNum &&
-//@        arg(4) == retn(NewBreachRetribution, 0) && retn(NewBreachRetribution, 1) == nil && arg(5) == retn(NewAnchorResolution, 0)
+//@        arg(4) == retn(NewBreachRetribution, 0) && retn(NewBreachRetribution, 1) == nil && arg(5) == retn(NewAnchorResolution, 0) &&
+//@        retn(NewBreachRetribution, 0).BreachTxHash == ret(TxHash) && retn(NewAnchorResolution, 1) == nil
 //@
 //@ spec func closeTrigger(t int) int = ite(t == channeldb.CooperativeClose, coopCloseTrigger,
 //@        ite(t == channeldb.BreachClose, breachCloseTrigger, ite(t == channeldb.LocalForceClose, localCloseTrigger,
